@@ -553,6 +553,10 @@ func (c *Conn) readRecord() error {
 func (c *Conn) readChangeCipherSpec() error {
 	if c.in.deferredCCS {
 		c.in.deferredCCS = false
+		// 延迟的 CCS 生效时，CCS 之前的握手消息必须已全部处理完
+		if c.handBuf.Len() > 0 {
+			return c.in.setErrorLocked(c.sendAlert(alertUnexpectedMessage))
+		}
 		if err := c.in.changeCipherSpec(); err != nil {
 			return c.in.setErrorLocked(c.sendAlert(err.(alert)))
 		}
@@ -740,6 +744,11 @@ func (c *Conn) readRecordOrCCS(expectChangeCipherSpec bool) error {
 				return nil
 			}
 			if !expectChangeCipherSpec {
+				return c.in.setErrorLocked(c.sendAlert(alertUnexpectedMessage))
+			}
+			// 握手消息不得跨越 CCS：期待的 CCS 到达时不应还有未处理的握手数据
+			// （否则 CCS 之前以明文发送的 Finished 会在密钥切换后被接受）。
+			if c.handBuf.Len() > 0 {
 				return c.in.setErrorLocked(c.sendAlert(alertUnexpectedMessage))
 			}
 			if err := c.in.changeCipherSpec(); err != nil {
